@@ -2403,6 +2403,12 @@ def BHJM_cylinder_segment(
     )
     mask_z_in = (z1 - 1e-14 < z) & (z < z2 + 1e-14)
 
+    # on the axis the azimuth is undefined. For a segment that reaches the axis (r1 = 0) such a
+    # point lies on the apex edge, where the two side faces meet, whatever arctan2(0, 0) says
+    mask_axis = close(r, 0) & close(r1, 0)
+    mask_phi_in = mask_phi_in | mask_axis
+    mask_phi1 = mask_phi1 | mask_axis
+
     # on surface
     mask_surf_z = (
         (close(z, z1) | close(z, z2)) & mask_phi_in & mask_r_in
